@@ -2,7 +2,7 @@
   Props/C15.lean — property C15: async_mutex gives mutual exclusion and never loses a waiter.
   This file: the v1 mutex (Proto/MutexV1.lean).  ONLY property theorems and non-vacuity examples;
   the inductive invariant lives in Lemmas/MutexV1Inv.lean.  The v2 (cancellable) mutex is in
-  Props/C15_v2a.lean, C15_v2b.lean, C15_v2c.lean (split so that they build in parallel).
+  Props/C15_v2a.lean … C15_v2d.lean (split so that they build in parallel).
 
   PARAMETRIC theorems (`v1_mutual_exclusion`, `v1_no_lost_waiter`, `v1_fifo`,
   `v1_queue_asserts_hold`): for EVERY configuration — any number of threads, any scripts of
@@ -93,12 +93,12 @@ theorem v1_safe_spelled (cfg : Config) (s : St) (h : safe cfg s = true) :
     · exact ⟨h.1.1, h.1.2, h.2⟩
 
 theorem v1_two_safe : ∀ s, Reach (sys cfgTwo) s → safe cfgTwo s = true :=
-  safe_of_check _ { coded with M := 251 } 400 _ (by decide +kernel)
+  safe_of_check _ { coded with M := 173, W := 128 } 400 _ (by decide +kernel)
 
 theorem v1_try_safe : ∀ s, Reach (sys cfgTry) s → safe cfgTry s = true :=
-  safe_of_check _ { coded with M := 251 } 400 _ (by decide +kernel)
+  safe_of_check _ { coded with M := 127, W := 112 } 400 _ (by decide +kernel)
 
 theorem v1_batch_safe : ∀ s, Reach (sys cfgBatch) s → safe cfgBatch s = true :=
-  safe_of_check _ { coded with M := 509 } 400 _ (by decide +kernel)
+  safe_of_check _ { coded with M := 307, W := 104 } 400 _ (by decide +kernel)
 
 end Unifex.Props.C15
